@@ -373,9 +373,21 @@ def k10(ctx, rid):
                     # pre-empting the OS is right only when the requested *range* does not fit: the decision must involve the
                     # length of the read, not the offset alone (a zero-length read at the very end of a file is satisfiable)
                     lv = set()
+                    sites = []
                     for sw in core.deciding_switches(f, c.bb):
-                        lv |= core.scalar_leaves(prog, f, f.blocks[sw]['t']['o'], depth=1)
-                    if ('call', 'len') in lv or any(k2 == 'arg' and 'size' in str(v2) for (k2, v2) in lv) or ('call', 'remaining') in lv:
+                        lv |= core.scalar_leaves(prog, f, f.blocks[sw]['t']['o'], depth=1, sites=sites)
+                    other = [v2 for (k2, v2) in lv if k2 in ('field', 'call') and str(v2) in ('written_size', 'synced_size', 'dirty_bytes')]
+                    for (nm, fid2, bb2) in sites:
+                        g2 = prog.fns.get(fid2)
+                        c2 = g2.call_at(bb2) if g2 is not None else None
+                        if nm == 'load' and c2 is not None and prims.receiver_field(g2, c2) in ('written_size', 'synced_size'):
+                            other.append(prims.receiver_field(g2, c2))
+                    if other:
+                        # the extent of the file is its size: a counter that lags behind it (completed writes after a failed
+                        # append, synced bytes) refuses reads of bytes that are in the file
+                        bad += 1
+                        ctx.bad(rid, 'read-error-kind|%s' % root, c.where(), 'the read wrapper `%s` refuses a read by comparing the requested range with `%s`, not with the size of the file: after a failed append that counter lags behind for the rest of the session and the newest acknowledged records of the blob cannot be read' % (root.split('::')[-1], other[0]))
+                    elif ('call', 'len') in lv or any(k2 == 'arg' and 'size' in str(v2) for (k2, v2) in lv) or ('call', 'remaining') in lv:
                         ctx.ok(rid, 'read-error-kind|%s' % root, c.where(), 'UnexpectedEof, decided on the requested range')
                     else:
                         bad += 1
